@@ -217,7 +217,10 @@ def run(ctx):
     for v in voice:
         ctx.count(core.digest(v["bytes"]))
     path = os.path.join(ctx.rundir, "c01_data.json")
-    json.dump({"golay": golay, "qr": qr, "basis": basis, "data": data, "voice": voice, "table": table}, open(path, "w"))
+    from harness.drivers import c10
+    tl = c10.learn()
+    json.dump({"golay": golay, "qr": qr, "basis": basis, "data": data, "voice": voice, "table": table,
+               "trellis": {"T": tl["T"], "PD": tl["PD"], "DB": tl["DB"], "I": tl["I"]}}, open(path, "w"))
     ctx.sample({"data_burst": data[100], "voice_burst": voice[3]})
     res = core.run_tlc(ctx, "MC_Burst", "MC_Burst.cfg", env={"DATA_FILE": path}, timeout=2400, jvm=("-Xss256m",))
     want = len(data) + len(voice) + len(table)
